@@ -7,7 +7,7 @@
 From Coq Require Import NArith ZArith List Bool Lia Permutation.
 From NGS Require Import Val Ints Morton ShardBytes MiniShard ShardFile ShardReader ShardSpecReader
   ShardCanon MiniShardProofs ShardFileProofs ShardCloseProofs ShardSpecProofs ShardTopProofs
-  ShardWfProofs ShardWitness ShardWitnessProofs.
+  ShardWfProofs ShardWitness ShardWitnessProofs ShardSession ShardSessionProofs.
 Import ListNotations.
 Open Scope N_scope.
 
@@ -169,3 +169,35 @@ Theorem C04_reads_instance_2x3x2 :
   forallb (fun nf => wf_all (wf_file 1 1 1 raw_sdec (fst nf) (snd nf))) ok_files = true.
 Proof. exact guard_example. Qed.
 Print Assumptions C04_reads_instance_2x3x2.
+
+(* ---------- the info file replaced during a writing session ----------
+   ShardedFileAccessor reads the sharding parameters of a scale from the info
+   when the scale is first written.  Model: ShardSession.isess_run, where an
+   [IInfo cfg'] step replaces the info.  Scale k1 is written and closed under
+   cfg, the info is replaced, scale k2 (never written before) is written and
+   closed: nothing raises and the files of k2 are those of the single-scale
+   model under the parameters of the NEW info — so C04_spec_reads_canonical and
+   C04_canonical_wf hold for a reader that takes its parameters from the info
+   file on disk; k1 keeps the files written under the old info. *)
+Theorem C04_info_replaced_between_scales : forall enc ienc cfg cfg' k1 k2 v1 sp1 v2 sp2 ops1 cms1 ops2 cms2,
+  k1 <> k2 ->
+  cbits sp1 < 2 ^ 64 -> sp_m sp1 < 60 -> cfg k1 = Some (v1, sp1) ->
+  Forall2 (resolves v1) ops1 cms1 -> ops1 <> [] -> ops_valid sp1 cms1 -> sizes_ok sp1 enc ienc cms1 ->
+  cbits sp2 < 2 ^ 64 -> sp_m sp2 < 60 -> cfg' k2 = Some (v2, sp2) ->
+  Forall2 (resolves v2) ops2 cms2 -> ops2 <> [] -> ops_valid sp2 cms2 -> sizes_ok sp2 enc ienc cms2 ->
+  exists st2,
+    isess_run enc ienc cfg sess_init
+      (map IOp (phase_ops k1 ops1) ++ IInfo cfg' :: map IOp (phase_ops k2 ops2)) =
+      (st2, all_sok (phase_ops k1 ops1 ++ phase_ops k2 ops2)) /\
+    (forall name, blookup name (sdir st2 k2) = blookup name (session_files sp2 enc ienc cms2)) /\
+    (forall name, blookup name (sdir st2 k1) = blookup name (session_files sp1 enc ienc cms1)).
+Proof. exact info_replaced_between_scales. Qed.
+Print Assumptions C04_info_replaced_between_scales.
+
+Example C04_info_replaced_instance :
+  let run := isess_run ex_id ex_id ex_cfg sess_init
+               (map IOp (phase_ops 0 ex_ops) ++ IInfo ex_cfg' :: map IOp (phase_ops 1 ex_ops)) in
+  snd run = all_sok (phase_ops 0 ex_ops ++ phase_ops 1 ex_ops) /\
+  sdir (fst run) 1 = sdir (fst (sess_run ex_cfg' ex_id ex_id sess_init (phase_ops 1 ex_ops))) 1 /\
+  sdir (fst run) 1 <> sdir (fst run) 0.
+Proof. exact info_replaced_example. Qed.
